@@ -121,6 +121,13 @@ void one_case(Ctx &c) {
     CHECK(c, e == CO_ERR_NONE, "request-accepted", "request on the idle client %d refused with %d", n, e);
     { uint8_t other[4]; s.api_begin(); CO_ERR e2 = c.t.coin() ? COCSdoRequestUpload(cl, CO_DEV(idx, sub), other, 4, n ? done1 : done0, 5) : COCSdoRequestDownload(cl, CO_DEV(0x2001, 1), other, 4, n ? done1 : done0, 5); s.api_end("COCSdoRequest");
       CHECK(c, e2 == CO_ERR_SDO_BUSY, "busy-client-refuses", "a busy client accepted a further request (returned %d)", e2); CHECK(c, cb.count == 0, "exactly-one-callback", "the refused request invoked the callback"); }
+    // in a quarter of the undisturbed transfers application timers occupy every remaining slot of the pool while the transfer runs: the transfer holds
+    // its one timeout action and needs no second one at any moment (derived from the payload seed, not drawn: the saved witnesses keep their meaning)
+    std::vector<int16_t> tight;
+    if (!inter_t && !oth.open && !ch.armed && SplitMix(0x7167u ^ pseed).next() % 4 == 0) {
+      s.api_begin(); for (int g = 0; g < 64 && s.timers_used() < (int)s.ntmr; g++) { int16_t id = COTmrCreate(&s.node->Tmr, 400000000u, 0, nop_cb, nullptr); if (id < 0) break; tight.push_back(id); } s.api_end("COTmrCreate");
+      CHECK(c, s.timers_used() == (int)s.ntmr, "harness", "could not fill the timer pool"); c.cls("transfer-with-no-spare-timer-slot");
+    }
     uint32_t off = 0, step = 0; int tgl = 0; long lastreq = s.tick; bool finished = false, conforming = true, ended_by_stale = false; uint32_t expcode = 0; bool stale_t = c.t.chance(90);
     for (int guard = 0; !finished; guard++) {
       CHECK(c, guard < 6000, "progress", "transfer makes no progress");
@@ -226,6 +233,7 @@ void one_case(Ctx &c) {
       } else if (conforming) CHECK(c, cb.count == 0, "exactly-one-callback", "completion callback (code %08X) before the transfer was complete (step %u)", cb.code, step);
     }
     CHECK(c, cb.count == 1, "exactly-one-callback", "%d completion callbacks for one transfer", cb.count);
+    if (!tight.empty()) { s.api_begin(); for (int16_t id : tight) COTmrDelete(&s.node->Tmr, id); s.api_end("COTmrDelete"); }
     if (ch.tried) {
       chained++;
       if (ch.res == CO_ERR_NONE) {   // accepted from inside the callback: it must be a working transfer
